@@ -83,7 +83,7 @@ static void body(bsx::Ctx& c) {
 	const int chunk = (arch == tl::MsgPack) ? kBinChunk : kEncChunk;
 	std::vector<int> pads;
 	if (chunk <= 32) { for (int p = 0; p <= chunk; ++p) if (thorough || chunk <= 16 || p % 3 == 0 || p >= chunk - 2) pads.push_back(p); }
-	else if (thorough) { pads.push_back(0); for (int p = chunk - 48; p <= chunk; ++p) pads.push_back(p); }
+	else if (thorough) { pads.push_back(0); for (int p = chunk - 48; p <= chunk; ++p) if (p % 2 == 0 || p >= chunk - 9) pads.push_back(p); }
 	else pads = {0, chunk - 30, chunk - 17, chunk - 9, chunk - 4, chunk - 1};
 	int pad = pads[static_cast<size_t>(c.choose(static_cast<int>(pads.size()), "pad"))];
 	int kind = c.choose(3, "kind");   // 0 valid, 1 truncation, 2 corruption
@@ -95,12 +95,12 @@ static void body(bsx::Ctx& c) {
 	if (kind == 1) {
 		// every truncation of the payload part (the padding itself is not cut)
 		int lo = arch == tl::MsgPack ? 0 : 0; int n = static_cast<int>(bytes.size());
-		int cut = c.choose(std::min(n, thorough ? 96 : 24), "cut");   // number of bytes removed from the end (1..)
+		int cut = c.choose(std::min(n, thorough ? 48 : 24), "cut");   // number of bytes removed from the end (1..)
 		bytes.resize(static_cast<size_t>(n - 1 - cut)); mutDesc = "cut" + std::to_string(cut + 1); (void)lo;
 	} else if (kind == 2) {
 		static const unsigned char vals[] = {0x01, 0x22, 0x2c, 0x3c, 0x0a, 0x80, 0xc0, 0xc1, 0xff, 0x91, 0x20, 0x5b, 0x7b, 0xa5, 0xd9, 0xdc};   // quick: the first 10
 		int n = static_cast<int>(bytes.size());
-		int back = c.choose(std::min(n, thorough ? 64 : 12), "pos");   // position counted from the end
+		int back = c.choose(std::min(n, thorough ? 32 : 12), "pos");   // position counted from the end
 		int vi = c.choose(thorough ? static_cast<int>(sizeof vals) : 10, "byte");
 		size_t pos = static_cast<size_t>(n - 1 - back);
 		if (static_cast<unsigned char>(bytes[pos]) == vals[vi]) { c.outcome("n/a:same_byte"); return; }
@@ -134,6 +134,7 @@ static void body(bsx::Ctx& c) {
 		buf.deliver = [&](size_t avail, size_t refill) -> size_t {
 			if (refill >= 6) return avail;
 			static const size_t sizes[] = {0, 1, 2, 3, 7};
+			if (kind != 0 && devs >= 1) return avail;   // two delivery deviations only for the valid documents (thorough); mutated ones get one
 			int k = c.deviate(5, "delivery"); if (k) ++devs;
 			return k ? std::min(avail, sizes[k]) : avail;
 		};
